@@ -451,6 +451,15 @@ func (fr *Frame) makeSlice(st *State, i *ssa.MakeSlice) Value {
 			o.ElemType = elem
 			return &SliceV{Obj: o, Off: F.I64(0), Len: ln, Cap: cp}
 		}
+		if fr.v.structSlices {
+			// option struct-slices: a slice of structs of symbolic length, leaf by leaf; the zero contents are
+			// over-approximated by arbitrary ones
+			fr.v.fresh++
+			if soa := fr.v.symSoA(fmt.Sprintf("make!%d@arr", fr.v.fresh), elem); soa != nil {
+				st.mem[o] = soa
+				return &SliceV{Obj: o, Off: F.I64(0), Len: ln, Cap: cp}
+			}
+		}
 		unsup("make of slice with non-scalar element %s and symbolic size", elem)
 	}
 	var zero *Term
